@@ -11,7 +11,7 @@ import suites
 from props import c09
 
 PROP = 'C16'
-LEAN_TARGETS = ['CGV.Props.C16', 'CGV.Props.C16Run']
+LEAN_TARGETS = ['CGV.Props.C16', 'CGV.Props.C16Run', 'CGV.Props.C16Copies']
 RULE = ('fragment sets (1-4 fragments, 1-4 descriptors each, mixed kinds, labels, orders), reactivity tables with zeros '
         'and missing keys, terminal sets, seeds, target weights, coarse and all-atom mode; the random decisions of the '
         'real run are recorded (cgsmiles.sample.random wrapped in-process) and replayed into the Lean model: exact dump '
